@@ -721,13 +721,20 @@ def c05_scripts(rng, tier):
                                   ch=rng.choice([1, 1, 2]), taus_cap=100000)
             S.append(h)
     # ---- async: constant ratio, different chunkings / variants: same evaluation instants
-    for _ in range(n_gen):
-        fam = rng.choice(["Fast", "Sinc"])
+    for it in range(n_gen + n_gen // 2):
+        frame_end = it >= n_gen        # the extra rounds: polynomial types whose chunks end on whole input frames
+        fam = "Fast" if frame_end else rng.choice(["Fast", "Sinc"])
         r = rng.choice(gen.RATIOS)
         base = {"op": "new", "T": 64, "ch": 1, "r": gen.rj(r), "maxrel": gen.rj(Fraction(2)), "signal": "index",
                 "seed": 5, "taus_cap": 100000}
         if fam == "Fast":
-            base["degree"] = rng.choice(["Septic", "Quintic", "Cubic", "Linear"])
+            base["degree"] = rng.choice(["Septic", "Quintic", "Cubic", "Linear", "Nearest"])
+            if frame_end:
+                base["degree"] = rng.choice(["Nearest", "Nearest", "Linear"])
+            if frame_end or rng.random() < 0.3:
+                # chunks that end exactly on an input frame although the step is not representable in binary
+                r = rng.choice([Fraction(6), Fraction(20, 3), Fraction(9, 8), Fraction(25, 7), Fraction(5, 9), Fraction(3)])
+                base["r"] = gen.rj(r)
         else:
             base.update({"L": rng.choice([8, 16, 64]), "F": rng.choice([2, 4, 16, 128, 3, 100]),
                          "interp": rng.choice(["Cubic", "Quadratic", "Linear", "Nearest"]), "probe": "linear"})
@@ -743,19 +750,24 @@ def c05_scripts(rng, tier):
                 base["r"] = gen.rj(Fraction(2 * F, odd))
                 r = Fraction(2 * F, odd)
         insts = []
-        for _ in range(rng.randrange(2, 5)):
+        for j in range(rng.randrange(2, 5)):
             n = dict(base)
             n["kind"] = fam + rng.choice(["FixedIn", "FixedOut"])
+            if frame_end:
+                n["kind"] = fam + ("FixedOut" if j % 2 == 0 else "FixedIn")
             n["chunk"] = rng.choice([1, 2, 3, 7, 16, 33, 64, 100, 256])
+            if fam == "Fast" and Fraction(r) in (Fraction(6), Fraction(20, 3), Fraction(9, 8), Fraction(25, 7),
+                                                 Fraction(5, 9), Fraction(3)):
+                n["chunk"] = rng.choice([480, 96, 60, 7, 9, 45, 25, 300, 6])
             insts.append(n)
         ops = [with_id(n, i) for i, n in enumerate(insts)]
         # nearest-point selection: where the positions are not exact in binary (step not dyadic), two chunkings
         # may legitimately resolve a tie differently - one quantum of the sub-filter grid
         tol = 0
-        if base.get("interp") == "Nearest":
+        if base.get("interp") == "Nearest" or base.get("degree") == "Nearest":
             d = (1 / Fraction(r)).denominator
             if d & (d - 1):
-                tol = (1 << 20) // base["F"] + 1
+                tol = (1 << 20) // base.get("F", 1) + 1
         for i in range(1, len(insts)):
             ops.append({"op": "note", "twin": "taus", "a": 0, "b": i, "c": tol})
         want_out = 400
